@@ -75,6 +75,29 @@ RECURSIVE Norm(_)
 Norm(v) == CASE v.k = "slicewin" -> [k |-> "slice", t |-> Window(v.t, v.sb, v.eb, v.sr, v.er)]
              [] v.k = "tuple" -> [k |-> "tuple", v |-> [i \in 1..Len(v.v) |-> Norm(v.v[i])]]
              [] OTHER -> v
+\* total structural equality of observed values: TLC raises an error when it compares values of different shapes (a
+\* record with a sequence), and a broken parser may well return a value of the wrong kind where another is expected
+RECURSIVE SameVal(_, _), SameSeq(_, _), SameCtl(_, _)
+SameSeq(x, y) == Len(x) = Len(y) /\ \A i \in 1..Len(x) : SameVal(x[i], y[i])
+SameOpt(x, y) == Len(x) = Len(y) /\ (Len(x) = 0 \/ (DOMAIN x[1] = DOMAIN y[1] /\ x[1] = y[1]))      \* <<>> or <<big integer>>
+SameCtl(a, b) ==
+    /\ DOMAIN a = DOMAIN b /\ DOMAIN a = {"nargs", "stack", "save", "cp"}
+    /\ SameOpt(a.nargs, b.nargs) /\ SameOpt(a.cp, b.cp)
+    /\ Len(a.stack) = Len(b.stack) /\ (Len(a.stack) = 0 \/ SameSeq(a.stack[1], b.stack[1]))
+    /\ Len(a.save) = Len(b.save)
+    /\ \A i \in 1..Len(a.save) : DOMAIN a.save[i] = DOMAIN b.save[i] /\ DOMAIN a.save[i] = {"k", "v"}
+                                   /\ a.save[i].k = b.save[i].k /\ SameVal(a.save[i].v, b.save[i].v)
+SameVal(a, b) ==
+    /\ DOMAIN a = DOMAIN b
+    /\ a.k = b.k
+    /\ CASE a.k = "tuple" -> SameSeq(a.v, b.v)
+         [] a.k = "cont" ->
+               /\ a.c = b.c
+               /\ \A f \in DOMAIN a \ {"k", "c"} :
+                     IF f \in {"next", "body", "after", "cond"} THEN SameVal(a[f], b[f])
+                     ELSE IF f = "cdata" THEN SameCtl(a[f], b[f])
+                     ELSE a[f] = b[f]                          \* big integers and cell trees: same field, same shape
+         [] OTHER -> a = b                                     \* same kind and fields: same shape
 \* a stack is representable iff every cell of its encoding respects the cell limits (everything is inline by schema,
 \* so e.g. a continuation with saved stack, saved registers and code below another stack entry needs 5 references)
 RECURSIVE TreeFits(_)
